@@ -60,7 +60,7 @@ func (c *Ctx) Thorough() bool { return c.Tier == "thorough" }
 // Sample keeps up to a few sample cases.
 func (c *Ctx) Sample(v any) {
 	if len(c.Samples) < 4 {
-		c.Samples = append(c.Samples, v)
+		c.Samples = append(c.Samples, JSONSafe(v))
 	}
 }
 
@@ -93,7 +93,7 @@ func (c *Ctx) Fail(key, msg string, cs any) {
 	if n >= 2 || len(c.Findings) > 400 {
 		return
 	}
-	c.Findings = append(c.Findings, Finding{Prop: c.Prop, Key: key, Msg: msg, Unit: c.Unit, Case: cs})
+	c.Findings = append(c.Findings, Finding{Prop: c.Prop, Key: key, Msg: msg, Unit: c.Unit, Case: JSONSafe(cs)})
 }
 
 // NotExhaustive notes that a cap cut the exploration.
